@@ -186,13 +186,20 @@ fn run<C: Cs>(ctx: &Ctx, idx: u64, nmax: usize, mixes: usize) {
                 // e' = 2e with v' = sqrt is not computable; e' = e/.. no. A too-large e with matching v: e' = e + 2^le
                 ("e+2^le", Integer::from(&e + (Integer::from(1) << C::le)), s.clone(), v.clone()),
             ];
+            // two-field variants that anyone can derive from a valid signature without the key: they keep the attribute
+            // vector but must not verify, because e must stay a positive le-bit value (and v a canonical residue)
+            let mut comps = comps;
+            if let Ok(vinv) = v.clone().invert(&pk.N) {
+                comps.push(("(-e, v^-1)", Integer::from(-&e), s.clone(), vinv.clone()));
+                comps.push(("(-e, v^-1 - N)", Integer::from(-&e), s.clone(), Integer::from(&vinv - &pk.N)));
+            }
+            comps.push(("-e", Integer::from(-&e), s.clone(), v.clone()));
+            comps.push(("-s", e.clone(), Integer::from(-&s), v.clone()));
+            comps.push(("v-N", e.clone(), s.clone(), Integer::from(&v - &pk.N)));
             for (nm, e2, s2, v2) in comps {
                 let forged = sig_from::<C>(&sig, &e2, &s2, &v2);
-                // "v+N" is the same residue: a verifier working mod N accepts it; it is the same signature value, not
-                // another attribute vector, and is outside the statement ("altered signature components" = other values mod N)
-                if nm == "v+N" {
-                    continue;
-                }
+                // "v+N" / "v-N" are other representatives of the same residue: still an altered component (the encoded
+                // signature differs), so they must not verify either (F18: verify now accepts only v in (0, N))
                 must_fail::<C>(ctx, &format!("component#{nm}"), &case, &forged, &pk, &bases, &msgs, json!({"edit":nm}));
             }
             // other bases / other key
